@@ -43,7 +43,9 @@ EXTRA_VALUES = ["[1]", "[1, 2]", "(1, 2)", "{1, 2}", "{'a': 1, 'b': 2}", "[1.5]"
                 "'2020-01-02 00:00:00'", "'2020-01-02T10:11:12'", "datetime(2020,1,2,10,11,12)", "1.5", "2.0", "'2.0'", "'2.5'",
                 "Decimal('2.0')", "Decimal('2.5')", "b'2.5'", "b'\\xff\\xfe'", "'yes'", "'f'", "'T'", "'2'", "2", "-1", "'maybe'",
                 "1.0", "0.0", "Fraction(5, 2)", "10**30", "'1e2'", "1e2", "bytearray(b'abc')", "'true '", "[True]", "[[1, 2]]",
-                "MyInt(1)", "MyStr('1')"]
+                "MyInt(1)", "MyStr('1')", "'2020-02-20 00:00:00.500000'", "'2020-02-20T00:00:00.000001'", "1582156800.5",
+                "1582156800", "1582156801", "datetime(2020,2,20,0,0,0,500000)", "datetime(2020,2,20)", "b'2020-02-20 00:00:00.5'",
+                "Decimal('1.5')", "Decimal('1582156800.5')"]
 
 
 def bounds(tier):
@@ -72,8 +74,11 @@ def values():
     return _VALUES
 
 
+UNION_MEMBERS = ["int", "float", "str", "Decimal", "bool", "date", "datetime", "NoneType", "list"]
+
+
 def shards(tier):
-    return [("target", t) for t in TARGETS] + [("tuple",), ("dataclass",)]
+    return [("target", t) for t in TARGETS] + [("tuple",), ("dataclass",)] + [("union", a) for a in UNION_MEMBERS]
 
 
 def convert(t, vx, oi):
@@ -179,6 +184,14 @@ TEXT_TARGETS = {"str", "MyStr"}
 
 
 def has_time_part(x):
+    if isinstance(x, bool):
+        return False
+    if isinstance(x, (int, float, decimal.Decimal)):
+        # a timestamp in seconds that is not a whole UTC day
+        try:
+            return x == x and abs(x) < 2e10 and round(float(x) % 86400, 6) not in (0.0, 86400.0)
+        except Exception:
+            return False
     if isinstance(x, _dt.datetime):
         return (x.hour, x.minute, x.second, x.microsecond) != (0, 0, 0, 0)
     if isinstance(x, (bytes, bytearray)):
@@ -204,6 +217,9 @@ def run_shard(shard, tier):
         return acc
     if shard[0] == "dataclass":
         _dataclass(acc)
+        return acc
+    if shard[0] == "union":
+        _union(acc, shard[1])
         return acc
     tname = shard[1]
     t = ev(tname)
@@ -389,3 +405,48 @@ def _dataclass(acc):
                 if r[0] == "ok" and isinstance(x, list) and len(x) > 1:
                     v(f"no-data-loss-collapse-{flags}", f"a list of {len(x)} mappings became one instance under {flags}")
             acc.sample(dict(target=base, value=vx, results=[r[0] for r in res]))
+
+
+def _union(acc, first):
+    """clause (i) for union targets (the union builds its stages from the flags)"""
+    for second in UNION_MEMBERS:
+        if second == first:
+            continue
+        ann = f"Union[{first}, {second}]"
+        t = eval(f"T({ann})", _NS)
+        for vx in values():
+            acc.states += 1
+            res = [convert(t, vx, oi) for oi in range(4)]
+            acc.transitions += 4
+            acc.evaluations += 1
+            x = ev(vx)
+            if any(r[0] == "ok" and r[1] is not x for r in res):
+                acc.nontrivial_add((ann, vx))
+            base = res[0]
+            for oi in (1, 2, 3):
+                r = res[oi]
+                if r[0] != "ok":
+                    continue
+                flags = "+".join(sorted(FLAGS[oi]))
+                kind = None
+                if base[0] != "ok":
+                    kind, msg = f"restrict-only-{flags}", f"converts to {short(r[1], 50)} under {flags} but fails without flags"
+                elif canon(base[1]) != canon(r[1]) or type(base[1]) is not type(r[1]):
+                    # is the member that wins without flags still available under the flags (alone, as a black box)?
+                    avail = "unflagged-member-unknown"
+                    for m in (first, second):
+                        if type(base[1]) is ev(m):
+                            alone_ = convert(ev(m), vx, oi)
+                            avail = ("unflagged-member-available" if alone_[0] == "ok" and canon(alone_[1]) == canon(base[1])
+                                     else "unflagged-member-unavailable")
+                    kind = f"same-value-{flags}@{avail}"
+                    msg = (f"gives {short(r[1], 50)} ({type(r[1]).__name__}) under {flags} but {short(base[1], 50)} "
+                           f"({type(base[1]).__name__}) without flags")
+                if kind:
+                    acc.violation(f"C12|{ann}|{kind}|{_vshape(x)}", f"type_transform({vx}, T({ann})): {msg}",
+                                  "import sys\nsys.path.insert(0, '/verif')\nfrom utmc.ns import *\nfrom utmc.canon import canon\n"
+                                  f"t = T({ann})\na = type_transform({vx}, t, options=Options(**{FLAGS[oi]!r}))\n"
+                                  f"try:\n    b = type_transform({vx}, t)\nexcept Exception as e:\n    print('fails without flags', e); sys.exit(1)\n"
+                                  "print(repr(a), repr(b)); sys.exit(0 if canon(a) == canon(b) and type(a) is type(b) else 1)\n")
+            if acc.states % 499 == 0:
+                acc.sample(dict(target=ann, value=vx, results=[r[0] if r[0] != "ok" else short(r[1], 30) for r in res]))
